@@ -329,6 +329,15 @@ def build_harness():
         os.makedirs(os.path.dirname(dst), exist_ok=True)
         if not os.path.exists(dst):
             shutil.copy2(exe, dst)
+        else:
+            os.utime(dst)
+        # keep the few most recent copies only (a concurrent check may still run an older one)
+        olds = sorted((f for f in os.listdir(os.path.dirname(dst)) if f.startswith("dnp3-harness-")),
+                      key=lambda f: os.path.getmtime(os.path.join(os.path.dirname(dst), f)))
+        for f in olds[:-4]:
+            if os.path.join(os.path.dirname(dst), f) != dst:
+                try: os.remove(os.path.join(os.path.dirname(dst), f))
+                except OSError: pass
         _harness_bin = dst
         return dst
 
